@@ -248,6 +248,11 @@ def dedupEntriesAux : List (String × Bool) → List SigEntry → List SigEntry
     else e :: dedupEntriesAux ((e.connName, e.wc) :: seen) r
 def dedupEntries (es : List SigEntry) : List SigEntry := dedupEntriesAux [] es
 
+/-- suffix of a connector's structure name: a port bound to the signal in BOTH orientations gets two connectors, and the
+    one of the complementary binding is called `…-_rc` (repair F17b) -/
+def rcSuffix (es : List SigEntry) (e : SigEntry) : String :=
+  if e.wc && es.any (fun e' => e'.connName == e.connName && !e'.wc) then "-_rc" else ""
+
 mutual
 def emitDesInst : Inst → List String
   | .comp st => Comp.emitDes st
@@ -271,7 +276,7 @@ def emitDesSys : SysSt → List String
               Comp.joinWith " " ((bases.filter (·.len != 0)).map (fun b => pfx ++ e.comp ++ "-" ++ b.name ++ (if b.rev then "*" else ""))))
             else (e.comp ++ "-" ++ i.name, pfx ++ e.comp ++ "-" ++ i.name)
           | .sig n => (e.comp ++ "-" ++ n, pfx ++ e.comp ++ "-" ++ n)
-        let dn := sname ++ "-" ++ sigName
+        let dn := sname ++ "-" ++ sigName ++ rcSuffix entries e
         ["structure " ++ dn ++ " = " ++ duplex,
          dn ++ " : " ++ (if e.wc then sname else wcName) ++ " " ++ seqs]))
 def emitDesComps : List (String × Inst) → List String
